@@ -46,6 +46,10 @@ LegitStops == {"status", "done", "too_large", "out_limit", "frame_limit", "init_
 
 \* ---- clause sets per event kind -------------------------------------------
 
+\* the checked build (hook H3) reports, in every event of a public call, how many of the compiler's claimed ranges
+\* failed at run time during that call ("call" events get the clause through Violated)
+RangeBad == IF ClaimedRangesHold(E) THEN {} ELSE {"ClaimedRangesHold"}
+
 CallBad ==
     LET base == Violated(E, AmpleDst)
         cont == \* continuity: cumulative counters only grow, the object is not called after an error
@@ -106,7 +110,7 @@ Expect == /\ Step("expect")
 
 Begin == /\ Step("begin")
          /\ s' = [s EXCEPT !.phase = "begun", !.kind = E.kind]
-         /\ bad' = IF E.ist = "" THEN {} ELSE {"InitializeSucceeds"}
+         /\ bad' = (IF E.ist = "" THEN {} ELSE {"InitializeSucceeds"}) \cup RangeBad
 
 Call == /\ Step("call")
         /\ bad' = CallBad
@@ -115,11 +119,11 @@ Call == /\ Step("call")
                           !.calls = @ + 1]
 
 HCall == /\ Step("hcall")
-         /\ bad' = (IF E.al # 0 THEN {"NoAllocInCall"} ELSE {}) \cup (IF ~E.ssame THEN {"SrcUnchanged"} ELSE {})
+         /\ bad' = (IF E.al # 0 THEN {"NoAllocInCall"} ELSE {}) \cup (IF ~E.ssame THEN {"SrcUnchanged"} ELSE {}) \cup RangeBad
          /\ s' = [s EXCEPT !.calls = @ + 1]
 
 Quirk == /\ Step("quirk")
-         /\ bad' = (IF E.al # 0 THEN {"NoAllocInCall"} ELSE {}) \cup (IF E.cls = "susp" THEN {"StatusClassLegal"} ELSE {})
+         /\ bad' = (IF E.al # 0 THEN {"NoAllocInCall"} ELSE {}) \cup (IF E.cls = "susp" THEN {"StatusClassLegal"} ELSE {}) \cup RangeBad
          /\ s' = s
 
 Info == /\ l <= Len(Trace) /\ E.k \in {"imgcfg", "framecfg", "frame", "skip"} /\ l' = l + 1
@@ -128,6 +132,7 @@ Info == /\ l <= Len(Trace) /\ E.k \in {"imgcfg", "framecfg", "frame", "skip"} /\
 \* C10: the pure methods of the interface were called around the run; the receiver's bytes must not change
 Pure == /\ Step("pure")
         /\ bad' = (IF E.objchg THEN {"PureLeavesReceiverUnchanged"} ELSE {}) \cup (IF E.al # 0 THEN {"NoAllocInCall"} ELSE {})
+                  \cup RangeBad
         /\ s' = s
 
 End == /\ Step("end")
